@@ -94,6 +94,17 @@ class ChargeQueueing(VehicleState):
             msg = f"vehicle doesn't have access to station; context: {context}"
             return SimulationStateError(msg), None
         else:
+            # a vehicle may only wait for a plug it can actually use (as ChargingStation.enter
+            # requires): otherwise it would wait forever while later arrivals are served
+            mechatronics = env.mechatronics.get(vehicle.mechatronics_id)
+            _, charger = station.get_charger_instance(self.charger_id)
+            if (
+                mechatronics is not None
+                and charger is not None
+                and not mechatronics.valid_charger(charger)
+            ):
+                msg = f"vehicle {vehicle.id} of type {vehicle.mechatronics_id} can't use charger {charger.id}; context: {context}"
+                return SimulationStateError(msg), None
             err1, updated_station = station.enqueue_for_charger(self.charger_id)
             if err1 is not None:
                 return err1, None
